@@ -13,23 +13,37 @@
 #else
 #include "typessimlib.h"
 #include "wrapsimlib.h"
+#ifdef HAVE_Item
 #include "wrapItem.h"
+#endif
+#ifdef HAVE_Box
 #include "wrapBox.h"
+#endif
+#ifdef HAVE_Holder
 #include "wrapHolder_int.h"
 #include "wrapHolder_double.h"
+#endif
+#ifdef HAVE_deep
 #include "wrapsimlib_deep.h"
+#endif
 #endif
 #include "simhook.h"
 
 /* helpers that are implemented in C but normally called from Fortran through bind(C) */
+#ifdef HAVE_ARRAY
 void SIM_ShroudCopyStringAndFree(SIM_SHROUD_array *data, char *c_var, size_t c_var_len);
 void SIM_ShroudCopyArray(SIM_SHROUD_array *data, void *c_var, size_t c_var_size);
+#endif
 
 #define NH 8
 #define NC 4
-#ifndef SIMC
+#ifdef HAVE_Item
 static SIM_Item h[NH];
+#endif
+#ifdef HAVE_Box
 static SIM_Box bx[NH];
+#endif
+#ifdef HAVE_Holder
 static SIM_Holder_int hi[NH];
 static SIM_Holder_double hd[NH];
 #endif
@@ -43,6 +57,7 @@ static void res_arr(long n, long sum) { printf("RES %d %ld %ld\n", k, n, sum); }
 
 static char *exact(size_t n) { return (char *)malloc(n ? n : 1); }
 
+#ifdef HAVE_COPYSTRING
 /* fetch a string result through the context protocol used by the Fortran wrappers */
 static void fetch_string(SIM_SHROUD_array *d)
 {
@@ -53,6 +68,7 @@ static void fetch_string(SIM_SHROUD_array *d)
     res_str(buf, n);
     free(buf);
 }
+#endif
 
 static size_t len_trim(const char *s, size_t n)
 {
@@ -73,8 +89,10 @@ static char *fbuf(const char *text, size_t cap)
 
 static void do_op(const char *op, int a, int b, const char *text)
 {
+#ifdef HAVE_ARRAY
     SIM_SHROUD_array d;
     memset(&d, 0, sizeof d);
+#endif
     if (0) { }
 #ifndef SIMC
     else if (!strcmp(op, "item_default")) { sim_phase(1); SIM_Item_ctor_default(&h[a]); sim_phase(0); res_none(); }
@@ -248,9 +266,18 @@ static void do_op(const char *op, int a, int b, const char *text)
     }
 #endif
 #ifndef SIMC
-    else if (!strcmp(op, "vec_alloc") || !strcmp(op, "vec_ret")) {
+    else if (!strcmp(op, "vec_alloc")) {
         sim_phase(1);
-        if (op[4] == 'a') SIM_vec_alloc_bufferify(&d, a); else SIM_vec_ret_bufferify(a, &d);
+        SIM_vec_alloc_bufferify(&d, a);
+        size_t n = d.size;
+        int *v = (int *)exact(sizeof(int) * n);
+        SIM_ShroudCopyArray(&d, v, n); sim_phase(0);
+        long s = 0; for (size_t i = 0; i < n; i++) s += v[i];
+        res_arr((long)n, s); free(v);
+    }
+    else if (!strcmp(op, "vec_ret")) {
+        sim_phase(1);
+        SIM_vec_ret_bufferify(a, &d);
         size_t n = d.size;
         int *v = (int *)exact(sizeof(int) * n);
         SIM_ShroudCopyArray(&d, v, n); sim_phase(0);
@@ -359,10 +386,16 @@ static void do_op(const char *op, int a, int b, const char *text)
         double s = 0; for (int i = 0; i <= a; i++) s += v[i];
         res_arr(a + 1, (long)(s * 2)); free(v);
     }
-    else if (!strcmp(op, "str_ptr_in") || !strcmp(op, "str_val_in")) {
+    else if (!strcmp(op, "str_ptr_in")) {
         char *buf = fbuf(text, a);
         sim_phase(1);
-        int r = op[4] == 'p' ? SIM_str_ptr_in_bufferify(buf, (int)len_trim(buf, a)) : SIM_str_val_in_bufferify(buf, (int)len_trim(buf, a));
+        int r = SIM_str_ptr_in_bufferify(buf, (int)len_trim(buf, a));
+        sim_phase(0); res_int(r); free(buf);
+    }
+    else if (!strcmp(op, "str_val_in")) {
+        char *buf = fbuf(text, a);
+        sim_phase(1);
+        int r = SIM_str_val_in_bufferify(buf, (int)len_trim(buf, a));
         sim_phase(0); res_int(r); free(buf);
     }
     else if (!strcmp(op, "char_ret_null")) { sim_phase(1); SIM_char_ret_null_bufferify(a, &d); fetch_string(&d); }
@@ -412,8 +445,14 @@ int main(int argc, char **argv)
     setvbuf(stdout, NULL, _IONBF, 0);
     if (argc < 2 || !(fp = fopen(argv[1], "r"))) return 2;
     sim_init();
-#ifndef SIMC
-    memset(h, 0, sizeof h); memset(bx, 0, sizeof bx);
+#ifdef HAVE_Item
+    memset(h, 0, sizeof h);
+#endif
+#ifdef HAVE_Box
+    memset(bx, 0, sizeof bx);
+#endif
+#ifdef HAVE_Holder
+    memset(hi, 0, sizeof hi); memset(hd, 0, sizeof hd);
 #endif
     memset(caps, 0, sizeof caps);
     k = 0;
